@@ -23,6 +23,29 @@ EXPLICIT_CASTS = {'CStyleCastExpr', 'CXXFunctionalCastExpr', 'CXXStaticCastExpr'
                   'CXXReinterpretCastExpr', 'CXXDynamicCastExpr'}
 
 
+_KNOWN = None
+
+
+def known_names():
+    """the vocabulary frozen by rules/mk_known.py (functions and closure variables of the tree the rules were written for)"""
+    global _KNOWN
+    if _KNOWN is None:
+        import json as _json
+        import os as _os
+        p = _os.path.join(_os.path.dirname(_os.path.abspath(__file__)), 'known_names.json')
+        try:
+            d = _json.load(open(p))
+            _KNOWN = {'functions': set(d['functions']), 'closures': set(d['closures'])}
+        except (OSError, ValueError):
+            _KNOWN = {'functions': None, 'closures': set()}
+        if _KNOWN['functions'] is None:
+            class _All(set):
+                def __contains__(self, x):
+                    return True
+            _KNOWN['functions'] = _All()
+    return _KNOWN
+
+
 class AnalysisBroken(Exception):
     """The analysis cannot give a verdict (anchor vanished, unrecognised shape...)."""
 
@@ -337,6 +360,10 @@ class Fn:
             return ('member', nd['n'], T(nd['ch'][0]))
         if c in ('CallExpr', 'CXXMemberCallExpr', 'CXXOperatorCallExpr', 'UserDefinedLiteral'):
             args = tuple(T(a) for a in nd.get('args', []))
+            if depth < 40:
+                ex = self._expand_unknown_helper(nd, args, T, depth)
+                if ex is not None:
+                    return ex
             if c == 'CXXOperatorCallExpr':
                 op = nd.get('op')
                 if op == '*' and len(args) == 1:
@@ -400,6 +427,46 @@ class Fn:
         if r['c'] != 'ReturnStmt' or not r['ch']:
             return None
         return self.term(r['ch'][0], inline=False)
+
+    def _expand_unknown_helper(self, nd, args, T, depth):
+        """a call of a function or local closure that is not part of the vocabulary the rules were written against (a helper
+        introduced by a later refactoring), with exactly one return statement: the returned expression with the parameters
+        replaced by the arguments.  Known functions stay opaque symbols."""
+        callee = self.unit.functions.get(nd.get('cd')) if nd.get('cd') else None
+        if callee is None or callee.id == self.id or not callee.body:
+            return None
+        known = known_names()
+        if nd['c'] == 'CXXOperatorCallExpr' and nd.get('op') == '()':
+            a0 = self.strip(nd['args'][0]) if nd.get('args') else 0
+            a0n = self.n(a0) if a0 else {}
+            if a0n.get('c') != 'DeclRefExpr' or a0n.get('dk') not in ('local', 'static_local') or '(lambda)' not in callee.tname:
+                return None
+            if (self.tname + '|' + a0n.get('n', '')) in known['closures'] or self.tname not in known['functions']:
+                return None
+            actual = args[1:]
+            obj = None
+        elif nd['c'] in ('CallExpr', 'CXXMemberCallExpr'):
+            if callee.tname in known['functions'] or not (callee.tname.startswith('pgm::') or callee.file.endswith('cpgm.cpp')):
+                return None
+            actual = args
+            obj = T(nd['obj']) if nd.get('obj') else None
+        else:
+            return None
+        rets = [r for r in callee.returns() if callee.n(r)['ch']]
+        if len(rets) != 1 or len(callee.params) != len(actual):
+            return None
+        body = callee.term(callee.n(rets[0])['ch'][0], True, depth + 1)
+        sub = {('param', p['name']): a for p, a in zip(callee.params, actual)}
+
+        def rep(x):
+            if isinstance(x, tuple):
+                if x in sub:
+                    return sub[x]
+                if x == ('this',) and obj is not None:
+                    return obj
+                return tuple(rep(y) for y in x)
+            return x
+        return rep(body)
 
     # ------------------------------------------------------------- searches
     def calls(self, root=None, pred=None):
